@@ -2,6 +2,8 @@
 
 Protocol (model name `cal`; days are datetime.toordinal() numbers, plain integer atoms):
   (cal new t0 t1 (L weekend*) (L holiday*) adj)   Calendar(None, holidays, weekend, t0, t1, adj) becomes the current calendar
+  (cal newd ...)                                   the same, the holidays handed over as datetime.date objects (even positions) and
+                                                   as datetimes with a time of day (odd positions): a holiday is a DAY
   (cal reg <key> hol|N weekend|N t0|N t1|N)        calendar(key, ...) through the module registry; reply describes the calendar
   (cal isb t) (cal ishol t) (cal adjust a t) (cal add a t n) (cal bump a t n) (cal bdays a x y) (cal drange x y b)
   (cal ymd n)                                      the model's Gregorian arithmetic against datetime
@@ -44,16 +46,29 @@ def ilist(xs):
 
 # ------------------------------------------------------------------ naive reference used by the generator and the laws
 
+def ym(n):
+    """the calendar month a day number lies in: (year, month) - "t's month" of the statement"""
+    t = fo(n)
+    return (t.year, t.month)
+
+
 class Naive(object):
-    """day-by-day counting on integers - the property statement read literally"""
+    """day-by-day counting on integers - the property statement read literally.
+
+    `inside` = every listed holiday lies in [t0, t1] (the docstring: "Calendar is restricted to operate between cal.t0 and
+    cal.t1").  Then "business day" is well defined on every day (beyond the range no day is a holiday) and `up`/`down` count
+    on past the range end.  A calendar with holidays listed OUTSIDE its range is outside the statement at the range ends
+    (docs/notes/C05.md, "range end"): there `up`/`down` answer None beyond the range and the laws skip, the model-vs-code
+    comparison still runs."""
 
     def __init__(self, t0, t1, weekend, hol, adj):
         self.t0, self.t1, self.weekend, self.hol, self.adj = t0, t1, set(weekend), set(hol), adj
+        self.inside = all(t0 <= h <= t1 for h in hol)
 
     def isb(self, n):
         return (n + 6) % 7 not in self.weekend and n not in self.hol
 
-    def up(self, n):
+    def up_in(self, n):
         """nearest business day on or after n inside the range, else None"""
         while n <= self.t1:
             if self.isb(n):
@@ -61,12 +76,29 @@ class Naive(object):
             n += 1
         return None
 
-    def down(self, n):
+    def down_in(self, n):
         while n >= self.t0:
             if self.isb(n):
                 return n
             n -= 1
         return None
+
+    def up(self, n):
+        """nearest business day on or after n (None: only beyond the range of a calendar with holidays outside its range)"""
+        r = self.up_in(n)
+        if r is None and self.inside:
+            r = max(n, self.t1 + 1)
+            while not self.isb(r):
+                r += 1
+        return r
+
+    def down(self, n):
+        r = self.down_in(n)
+        if r is None and self.inside:
+            r = min(n, self.t0 - 1)
+            while not self.isb(r):
+                r -= 1
+        return r
 
     def adjust(self, n, adj=None):
         adj = adj or self.adj
@@ -77,15 +109,18 @@ class Naive(object):
         f = self.up(n)
         if f is None:
             return None
-        if fo(f).month != fo(n).month:
+        if ym(f) != ym(n):      # "unless that leaves t's month": the month of a year, not a month number
             return self.down(n)
         return f
+
+    def in_range(self, a):
+        return a is not None and self.t0 <= a <= self.t1
 
     def nth(self, a, n):
         """the n-th business day counted from the business day a (None if it leaves the range)"""
         step = 1 if n > 0 else -1
         for _ in range(abs(n)):
-            a = self.up(a + 1) if step > 0 else self.down(a - 1)
+            a = self.up_in(a + 1) if step > 0 else self.down_in(a - 1)
             if a is None:
                 return None
         return a
@@ -96,7 +131,13 @@ class Naive(object):
 
 # ------------------------------------------------------------------ generator
 
-def rand_calendar(rng, tier):
+def rand_calendar(rng, tier, kind='std'):
+    """kind: 'std' (holidays inside the range, densities 0-40%, runs of 1-6 days across month ends and weekends),
+    'longrun' (one holiday run of 12-14 months: "holiday sets of any density"; the following business day then lies in the
+    same month NUMBER of the next year), 'outside' (holiday runs straddling / beyond the range ends: outside the statement,
+    compared model-vs-code only)"""
+    if kind == 'longrun':
+        return longrun_calendar(rng)
     y = rng.choice([1900, 1950, 1999, 2000, 2019, 2020, 2024, 2100, 2296]) if rng.random() < 0.5 else rng.randrange(1900, 2296)
     t0 = D(y, rng.randrange(1, 13), rng.randrange(1, 29)).toordinal()
     t1 = min(t0 + rng.randrange(2 * 365, 4 * 365), TMAX)
@@ -122,7 +163,41 @@ def rand_calendar(rng, tier):
     if rng.random() < 0.15:  # a holiday run at the very start / end of the range
         for k in range(rng.randrange(1, 6)):
             hol.add(t0 + k if rng.random() < 0.5 else t1 - k)
+    if kind == 'outside':
+        for end in rng.choice([(1,), (0,), (0, 1)]):
+            lo, hi = rng.randrange(0, 4), rng.randrange(1, 6)      # run [edge - lo, edge + hi] on the outer side
+            for k in range(-lo, hi + 1):
+                hol.add(t1 + k if end else t0 - k)
+        if rng.random() < 0.5:
+            hol.add(t1 + rng.randrange(1, 12))
+            hol.add(t0 - rng.randrange(1, 12))
     return t0, t1, weekend, sorted(hol), adj
+
+
+def longrun_calendar(rng):
+    """a 3-4 year calendar with ONE holiday run of 366..430 consecutive days (plus a few isolated holidays), small weekend"""
+    y = rng.choice([1999, 2000, 2019, 2020, 2099]) if rng.random() < 0.5 else rng.randrange(1900, 2290)
+    t0 = D(y, rng.randrange(1, 13), rng.randrange(1, 29)).toordinal()
+    t1 = t0 + rng.randrange(3 * 365, 4 * 365)
+    weekend = rng.choice(WEEKENDS)
+    adj = rng.choice(['m', 'm', 'f', 'p'])
+    start = t0 + rng.randrange(30, 500)
+    hol = set(range(start, start + rng.randrange(366, 431)))
+    hol.update(rng.randrange(t0, t1 + 1) for _ in range(rng.choice([0, 3, 10])))
+    return t0, t1, weekend, sorted(hol), adj
+
+
+def long_runs(hol, least=300):
+    """(first, last) of every run of at least `least` consecutive holidays"""
+    out, i, hs = [], 0, sorted(hol)
+    while i < len(hs):
+        j = i
+        while j + 1 < len(hs) and hs[j + 1] == hs[j] + 1:
+            j += 1
+        if j - i + 1 >= least:
+            out.append((hs[i], hs[j]))
+        i = j + 1
+    return out
 
 
 def interesting_days(rng, cal, count):
@@ -131,7 +206,14 @@ def interesting_days(rng, cal, count):
     for k in range(0, 6):
         days.add(t0 + k)
         days.add(t1 - k)
-    hs = list(hol)
+    runs = long_runs(hol)
+    for a, b in runs:     # a year before the first day after a long run: same month number, other year
+        for k in range(0, 5):
+            days.update([b + 1 - 365 - 5 * k, b + 1 - 366 + 2 * k])
+        days.update([a - 1, a, a + 1, b - 1, b, b + 1, (a + b) // 2])
+    must = set(d for d in days if t0 <= d <= t1)     # always kept
+    # (the implementation walks a long run day by day on every call: its interior is visited through `must` only)
+    hs = [h for h in hol if not any(a < h < b for a, b in runs)]
     rng.shuffle(hs)
     for h in hs[:count // 4]:
         days.update([h - 1, h, h + 1])
@@ -141,14 +223,27 @@ def interesting_days(rng, cal, count):
         days.update([first - 1, first])
     while len(days) < count:
         days.add(rng.randrange(t0, t1 + 1))
-    days = sorted(d for d in days if t0 <= d <= t1)
+    days = sorted(d for d in days if t0 <= d <= t1 and d not in must)
     rng.shuffle(days)
-    return sorted(days[:count])
+    return sorted(list(must) + days[:max(0, count - len(must))])
 
 
-def new_line(cal):
+KINDS = {3: 'longrun', 7: 'outside', 17: 'outside', 11: 'dates'}    # calendar index mod 20 -> class (else 'std')
+
+
+def new_line(cal, scalar_weekend=False, dates=False):
     t0, t1, weekend, hol, adj = cal
-    return '(cal new %d %d %s %s %s)' % (t0, t1, ilist(weekend), ilist(hol), adj)
+    we = '%d' % weekend[0] if scalar_weekend and len(weekend) == 1 else ilist(weekend)
+    return '(cal %s %d %d %s %s %s)' % ('newd' if dates else 'new', t0, t1, we, ilist(hol), adj)
+
+
+def as_dates(hol):
+    """the holidays of a `newd` line as the caller's objects: datetime.date / datetime with a time of day"""
+    return [fo(h).date() if i % 2 == 0 else fo(h) + datetime.timedelta(hours=9, minutes=30) for i, h in enumerate(hol)]
+
+
+# spellings of a convention: the code takes `adj.lower()` and looks at its first letter (_drange.py:542)
+SPELLED = ['F', 'P', 'M', 'following', 'Following', 'prev', 'Previous', 'modified', 'MF', 'mod_following', 'p', 'f']
 
 
 def generate(rng, tier):
@@ -158,18 +253,22 @@ def generate(rng, tier):
     lines += ['(cal ymd %d)' % rng.randrange(TMIN, TMAX + 1) for _ in range(300 if tier == 'quick' else 20000)]
     yield dict(tag='civil', lines=lines)
     for ci in range(ncal):
-        cal = rand_calendar(rng, tier)
+        kind = KINDS.get(ci % 20, 'std')
+        cal = rand_calendar(rng, tier, 'std' if kind == 'dates' else kind)
         t0, t1, weekend, hol, adj = cal
         nv = Naive(*cal)
         dens = len(hol) / float(t1 - t0 + 1)
         tag = 'cal we=%s adj=%s hol=%s' % (''.join(map(str, weekend)) or '-', adj,
                                             '0' if not hol else '<5%' if dens < 0.05 else '<15%' if dens < 0.15 else '>=15%')
-        lines = [new_line(cal)]
+        if kind != 'std':
+            tag = 'cal %s we=%s adj=%s' % (kind, ''.join(map(str, weekend)) or '-', adj)
+        lines = [new_line(cal, scalar_weekend=(ci % 2 == 0), dates=(kind == 'dates'))]
         for t in interesting_days(rng, cal, ndays):
             lines.append('(cal isb %d)' % t)
             lines.append('(cal ishol %d)' % t)
             for a in 'fpmd':
                 lines.append('(cal adjust %s %d)' % (a, t))
+            lines.append('(cal adjust %s %d)' % (rng.choice(SPELLED), t))
             ns = [1, -1, 2, -2] + [rng.randrange(-40, 41) for _ in range(3)]
             a0 = nv.adjust(t)
             if a0 is not None and nv.isb(a0):
@@ -214,31 +313,53 @@ def generate(rng, tier):
                 lines.append('(cal add d %d %d)' % (t, n))
         yield dict(tag='exhaustive we=%s adj=%s' % (''.join(map(str, weekend)) or '-', adj), lines=lines)
     # registry histories
-    for _ in range(30 if tier == 'quick' else 600):
-        yield registry_case(rng)
+    for i in range(30 if tier == 'quick' else 600):
+        yield registry_case(rng, full=(i % 3 == 0))
 
 
-def registry_case(rng):
+def registry_case(rng, full=False):
+    """a history of calendar(key, ...) calls.  Every registration is followed by look-ups that need the lazily built
+    table of THAT calendar object (add with |n| = 2, bdays, drange) next to the holidays just registered, not only by
+    is_bday: a table kept per key across re-registrations would answer from the previous holidays.  The default range
+    1900-2300 costs 0.5 s per table in the implementation, so full-range calendars get these ops only when `full`
+    (every third history), once."""
     keys = ['41', '42', '43']    # hex of 'A','B','C'
     lines = []
     t0 = D(rng.randrange(1990, 2030), 1, 1).toordinal()
+    full_range_tables = 0
     for _ in range(rng.randrange(3, 10)):
         k = rng.choice(keys)
         r = rng.random()
+        hs, bounded = [], False
         if r < 0.35:
             lines.append('(cal reg %s N N N N)' % k)
         else:
-            hol = 'N' if rng.random() < 0.15 else ilist(sorted(set(t0 + rng.randrange(0, 700) for _ in range(rng.choice([0, 0, 1, 3, 8])))))
+            hs = sorted(set(t0 + rng.randrange(0, 700) for _ in range(rng.choice([0, 0, 1, 3, 8]))))
+            if hs and rng.random() < 0.5:     # a short run, so that the neighbours differ between registrations
+                hs = sorted(set(hs + [hs[0] + 1, hs[0] + 2]))
+            hol = 'N' if rng.random() < 0.15 else ilist(hs)
             we = 'N' if rng.random() < 0.6 else ilist(rng.choice(WEEKENDS[:3]))
             a = 'N' if rng.random() < 0.2 else str(t0)
             b = 'N' if rng.random() < 0.2 else str(t0 + 730)
-            if rng.random() < 0.5:     # the usual call: calendar(key, holidays) and nothing else
+            if rng.random() < 0.4:     # the usual call: calendar(key, holidays) and nothing else
                 we = a = b = 'N'
             if hol == 'N' and we == 'N' and a == 'N' and b == 'N':
                 hol = '(L)'
+            bounded = a != 'N' and b != 'N'
             lines.append('(cal reg %s %s %s %s %s)' % (k, hol, we, a, b))
         for _ in range(rng.choice([0, 1, 2])):
             lines.append('(cal isb %d)' % (t0 + rng.randrange(0, 700)))
+        table = bounded or (full and full_range_tables < 1 and rng.random() < 0.4)
+        if table:
+            full_range_tables += 0 if bounded else 1
+            near = [h + d for h in (hs or [t0 + rng.randrange(5, 690)]) for d in (-2, -1, 0, 1)]
+            for t in rng.sample(near, min(len(near), 3)):
+                t = min(max(t, t0 + 3), t0 + 720)
+                lines.append('(cal add d %d %d)' % (t, rng.choice([2, -2, 3])))
+                lines.append('(cal add d %d %d)' % (t, rng.choice([1, -1])))
+            t = min(max(rng.choice(near), t0 + 3), t0 + 700)
+            lines.append('(cal bdays d %d %d)' % (t - 3, t + rng.randrange(0, 15)))
+            lines.append('(cal drange %d %d 1)' % (t - 3, t + rng.randrange(0, 9)))
     return dict(tag='registry', lines=lines)
 
 
@@ -270,10 +391,12 @@ def run_line(state, sx):
     if op == 'ymd':
         t = fo(int(args[0]))
         return 'ok (T I:%d I:%d I:%d I:%d)' % (t.year, t.month, t.day, t.weekday())
-    if op == 'new':
+    if op in ('new', 'newd'):
         t0, t1 = int(args[0]), int(args[1])
-        weekend = [int(x) for x in args[2][1:]]
+        weekend = [int(x) for x in args[2][1:]] if isinstance(args[2], list) else int(args[2])   # a scalar: weekend = 6
         hol = [fo(int(x)) for x in args[3][1:]]
+        if op == 'newd':
+            hol = as_dates([int(x) for x in args[3][1:]])
         state['cal'] = Calendar(None, holidays=hol, weekend=weekend, t0=fo(t0), t1=fo(t1), adj=args[4])
         return 'ok N'
     if op == 'reg':
@@ -281,6 +404,8 @@ def run_line(state, sx):
         state['cal'] = c
         return 'ok (T %s %s I:%d I:%d)' % (ilist_I(sorted(to(h) for h in c.holidays)), ilist_I(list(c.weekend)), to(c.t0), to(c.t1))
     c = state['cal']
+    if c is None:
+        return 'bad-op'       # no calendar yet (only in a shrunk history): the model says the same
     if op == 'isb':
         return 'ok ' + proto.enc(bool(c.is_bday(fo(int(args[0])))))
     if op == 'ishol':
@@ -319,12 +444,15 @@ def compare(case, i, line, ir, mr):
     if proto.same_reply(ir, mr):
         return None
     if line.startswith('(cal ymd'):
-        return ('divergence', 'Gregorian arithmetic of the model differs from datetime: %s vs %s' % (ir, mr))
+        # not a mere divergence: every theorem about `adjust 'm'` (month of a year) and every day number <-> date link of
+        # this property reaches the code through Civil = datetime, an obligation of the proof
+        return ('obligation "PygModel/Civil.lean agrees with datetime" fails: Gregorian arithmetic of the model differs '
+                'from datetime: %s vs %s' % (ir, mr))
     return 'implementation %s, model %s' % (ir[:300], mr[:300])
 
 
 def nontrivial(line, reply):
-    return reply.startswith('ok') and not line.startswith('(cal new') and not line.startswith('(cal ymd')
+    return reply.startswith('ok') and not line.startswith('(cal new') and not line.startswith('(cal ymd')    # ('(cal newd' too)
 
 
 # ------------------------------------------------------------------ laws: the statement, clause by clause, on the implementation
@@ -349,12 +477,13 @@ def _laws(rng, tier, ctx):
     from pyg_base._drange import Calendar, calendar
     count = 0
     ncal, ndays = (25, 40) if tier == 'quick' else (250, 120)
-    for _ in range(ncal):
-        cal = rand_calendar(rng, tier)
+    for li in range(ncal):
+        cal = rand_calendar(rng, tier, {2: 'longrun', 5: 'outside'}.get(li % 10, 'std'))
         t0, t1, weekend, hol, adj = cal
         nv = Naive(*cal)
-        c = Calendar(None, holidays=[fo(h) for h in hol], weekend=list(weekend), t0=fo(t0), t1=fo(t1), adj=adj)
-        nl = new_line(cal)
+        dates = li % 10 == 8     # holidays as datetime.date / with a time of day
+        c = Calendar(None, holidays=as_dates(hol) if dates else [fo(h) for h in hol], weekend=list(weekend), t0=fo(t0), t1=fo(t1), adj=adj)
+        nl = new_line(cal, dates=dates)
 
         def bad(tag, lines, msg):
             return Finding('violation', dict(tag='law-' + tag, lines=[nl] + lines), msg)
@@ -367,6 +496,19 @@ def _laws(rng, tier, ctx):
             except Exception as e:
                 return 'raise ' + type(e).__name__
 
+        # the lazily built table against day-by-day counting (the assumption on dateutil.rrule(byweekday=...)): int2dt is
+        # the increasing list of ALL business days of [t0, t1], dt2int its inverse
+        count += 1
+        tb = call(lambda: c._populate())
+        want = [fo(x) for x in nv.between(t0, t1)]
+        if isinstance(tb, str):
+            yield bad('table', [], '_populate: %s' % tb)
+        else:
+            i2d, d2i = tb['int2dt'], tb['dt2int']
+            if sorted(i2d.keys()) != list(range(len(want))) or [i2d[i] for i in range(len(i2d))] != want:
+                yield bad('table', ['(cal drange %d %d 1)' % (t0, t1)], 'int2dt is not the increasing list of the business days of [t0, t1] (%d entries, counting gives %d)' % (len(i2d), len(want)))
+            elif len(d2i) != len(want) or any(d2i.get(d) != i for i, d in enumerate(want)):
+                yield bad('table', ['(cal drange %d %d 1)' % (t0, t1)], 'dt2int is not the inverse of int2dt')
         for t in interesting_days(rng, cal, ndays):
             T = fo(t)
             count += 1
@@ -383,7 +525,7 @@ def _laws(rng, tier, ctx):
                 if got != fo(want):
                     yield bad('adjust', ['(cal adjust %s %d)' % (a, t)], "adjust(%s,'%s') = %s, nearest business day by counting is %s" % (T, a, got, fo(want)))
             a0 = nv.adjust(t)
-            if a0 is None or not nv.isb(a0):
+            if not nv.in_range(a0) or not nv.isb(a0):
                 continue
             for n in [1, -1, 2, -2, 0] + [rng.randrange(-40, 41) for _ in range(3)]:
                 want = nv.nth(a0, n)
@@ -413,7 +555,7 @@ def _laws(rng, tier, ctx):
             # drange '1b'
             u = min(t + rng.choice([0, 1, 3, 7, 15, 45]), t1)
             a1 = nv.adjust(u)
-            if a1 is not None and nv.isb(a1):
+            if nv.in_range(a1) and nv.isb(a1):
                 count += 1
                 got = call(lambda: c.drange(T, fo(u), '1b'))
                 want = [fo(x) for x in nv.between(a0, a1)]
@@ -450,7 +592,6 @@ def shrink(case, still_fails):
     """a case is [new/reg ..., op, op, ...]: bisect for the first failing line, keep only the set-up lines and that
     line, then delta-debug the holiday list of the `new` line"""
     lines = case['lines']
-    setup = [i for i, l in enumerate(lines) if l.startswith('(cal new') or l.startswith('(cal reg')]
     if not lines[0].startswith('(cal new'):
         # registry history: drop lines from the end / the middle while it still fails
         best = case
